@@ -6,6 +6,7 @@
    replayed on the real application by harness/c05_test.go c05Corpus and must now be rejected). *)
 From Coq Require Import ZArith List Bool.
 From Elys Require Import Base.Res Base.Zdec Models.AmmJoinExit Proofs.AmmJoinExitProofs.
+From Elys Require Models.AmmSwap Proofs.PowJoin.
 Import ListNotations.
 Open Scope Z_scope.
 
@@ -175,6 +176,36 @@ Theorem C05_single_asset_join_partial : forall B w tw a fee S pw,
   single_join_shares S pw * B * PREC <= S * (a * PREC + B).
 Proof. exact single_join_le_deposit. Qed.
 Print Assumptions C05_single_asset_join_partial.
+
+(* The same WITHOUT the hypothesis, for the cases in which the range of Pow is proved from its exact model
+   (Models/AmmSwap.v [pow], the model the C03 harness replays against the Go Pow; Proofs/PowSeries.v, Proofs/PowJoin.v):
+     - w = tw   (normalized weight 1: Pow(y,1) = y),
+     - tw = 2w  (two equal weights: normalized weight 1/2, ApproxSqrt; Newton iterates stay in [1,y]),
+     - w = 0    (Pow(y,0) = 1: no shares),
+     - any weights when y < 2, i.e. the deposit after fee is smaller than the reserve (Maclaurin series: alternating with
+       non-increasing terms, every partial sum in [1, 1 + wn*(y-1)]).
+   Then 1 <= Pow(y,wn) <= y and shares*B*10^18 <= S*(a*10^18 + B). NOT covered: y >= 2 with another weight (ln/exp method). *)
+Theorem C05_single_asset_join : forall B w tw a fee S pw,
+  0 < B -> 0 <= a -> 0 <= S -> 0 <= fee <= PREC -> 0 <= w <= tw -> 0 < tw ->
+  AmmSwap.pow (single_join_y B w tw a fee) (single_join_wn w tw) = Ok pw ->
+  (w = tw \/ tw = 2 * w \/ w = 0 \/ single_join_y B w tw a fee < AmmSwap.TWO) ->
+  PREC <= pw <= single_join_y B w tw a fee /\
+  0 <= single_join_shares S pw /\
+  single_join_shares S pw * B * PREC <= S * (a * PREC + B).
+Proof. exact PowJoin.single_join_le_deposit_pow. Qed.
+Print Assumptions C05_single_asset_join.
+
+(* non-vacuity of C05_single_asset_join: normalized weights 1/2 (square root), 1/4 (series, y < 2) and 1 on a reserve
+   of 30e9 with 1e9 in at 0.3%: Pow succeeds and shares are minted *)
+Example C05_single_asset_join_nonvacuous :
+  exists pw1 pw2 pw3,
+    AmmSwap.pow (single_join_y 30000000000 1 2 1000000000 3000000000000000) (single_join_wn 1 2) = Ok pw1 /\
+    AmmSwap.pow (single_join_y 30000000000 1 4 1000000000 3000000000000000) (single_join_wn 1 4) = Ok pw2 /\
+    AmmSwap.pow (single_join_y 30000000000 1 1 1000000000 3000000000000000) (single_join_wn 1 1) = Ok pw3 /\
+    0 < single_join_shares 60000000000000000000000 pw1 /\
+    0 < single_join_shares 60000000000000000000000 pw2 /\
+    single_join_y 30000000000 1 4 1000000000 3000000000000000 < AmmSwap.TWO.
+Proof. exact PowJoin.single_join_nonvacuous. Qed.
 
 (* non-vacuity: a reachable pool, both join forms and an exit succeed and satisfy the hypotheses *)
 Example C05_nonvacuous :
